@@ -22,8 +22,14 @@ TRUSTED = [
 def gen_history(g):
     d, o = g.randint(1, 3), g.randint(1, 2)
     c = {"kind": "history", "d": d, "o": o, "bias": g.chance(0.6), "ridge": g.choice([0.25, 0.5, 1.0]), "ops": []}
-    for _ in range(g.randint(2, 7)):
-        op = g.choice(["run", "partial_fit", "fit", "fit", "fit", "fit_nodata", "freeze"])
+    # one history in six is planted around the rare configuration "a frozen node that still owns partial sums": every
+    # training operation on it - fit() without data included - is rejected and changes nothing
+    planted = None
+    if g.chance(1 / 6):
+        planted = (["fit"] if g.chance(0.5) else []) + ["partial_fit", "freeze", g.choice(["fit_nodata", "fit_nodata", "partial_fit", "fit"])] \
+            + [g.choice(["fit_nodata", "run", "fit"]) for _ in range(g.randint(0, 2))]
+    for step in range(len(planted) if planted else g.randint(2, 7)):
+        op = planted[step] if planted else g.choice(["run", "partial_fit", "fit", "fit", "fit", "fit_nodata", "freeze"])
         e = {"op": op}
         if op in ("partial_fit", "fit"):
             k = g.randint(1, 3)
@@ -48,7 +54,11 @@ def gen_history(g):
                     e["seqs"][j] = {"X": e["seqs"][j]["X"][:1], "Y": e["seqs"][j]["Y"][:1]}
                     e["warmup"] = 1
         elif op == "freeze":
-            e["value"] = g.chance(0.5)
+            e["value"] = g.chance(0.5) if not planted else False
+        if planted:
+            e.pop("fail_at", None)
+            if "malformed" in e:
+                return gen_history(g)       # keep the planted histories free of other events
         c["ops"].append(e)
     return c
 
